@@ -239,7 +239,7 @@ prop("C14", "Bidirectional replay resumes from the contiguous committed prefix",
      CLUSTER_ASSUME + ["a crash is the target (or the link to it) dying after exactly N processed requests with its state intact; it also stands for the tool being killed at that moment", "the initial full synchronisation replays an empty snapshot taken at offset 1000", "streams use database 0 only"], max_inconclusive=1)
 
 prop("C18", "Cluster-mode bidirectional units are single-slot or refused, never best-effort", "exploration",
-     "a case = 1-3 node cluster with generated slot bounds x replay mode {sync, pipeline, parallel (1-3 lanes)} x window 1/2/8 x optional prefix blacklist (1-3 of 7 prefixes that cut keys out of transactions) x stream of 1-10 source units (single commands and MULTI/EXEC of 1-4 commands, PINGs in between) over 28 command shapes of the reference key table (1-key, 2-key, n-key, STORE destinations, numkeys layouts) with keys in 9 hash-tag shapes per tag (10 tags, four of them non-ASCII: multi-byte UTF-8 and invalid UTF-8) and 10 'exotic' brace arrangements (empty tag, unclosed, nested, second tag, binary bytes, empty key); one case in three carries one unit with mixed-slot keys or a command whose keys cannot be determined (unknown name, malformed numkeys). "
+     "a case = 1-3 node cluster with generated slot bounds x replay mode {sync, pipeline, parallel (1-3 lanes)} x window 1/2/8 x optional prefix blacklist (1-3 of 7 prefixes that cut keys out of transactions) x stream of 1-10 source units (single commands and MULTI/EXEC of 1-4 commands, PINGs in between) over 31 command shapes of the reference key table (1-key, 2-key, n-key, STORE destinations, numkeys layouts, and the option-dependent write forms GEORADIUS / GEORADIUSBYMEMBER ... STORE|STOREDIST and SORT ... STORE with the option given once or twice, resolved as the server's getkeys procedures do: last one wins, options only behind the fixed arguments) with keys in 9 hash-tag shapes per tag (10 tags, four of them non-ASCII: multi-byte UTF-8 and invalid UTF-8) and 10 'exotic' brace arrangements (empty tag, unclosed, nested, second tag, binary bytes, empty key); one case in three carries one unit with mixed-slot keys or a command whose keys cannot be determined (unknown name, malformed numkeys). "
      "non-trivial = distinct case with a unit of >= 2 keys or a unit that must be refused. "
      "Oracle: reference slot function (bitwise CRC16 + hash-tag rule) over the keys of the reference key-position table, applied (a) to every MULTI...EXEC any node received, executed or not, control keys included: exactly one slot, starts with a marker whose end offset names a source unit, carries exactly that unit's commands after the reference filter projection, marker slot = slot of the marker key; (b) to the source: the first unit whose keys span slots or are undeterminable must make Send return an error by itself with no transaction for it or anything behind it received by any node; a stream without such a unit must reach its end with every single-slot unit replayed and no error.",
      [{"pkg": "c18", "test": "TestC18",
